@@ -21,7 +21,11 @@ Import ListNotations RecordSetNotations.
 
 Inductive err := EWrite | ERunCtx | EStreamCtx.
 Inductive reason := Drained | Cancelled | Shutdown.
-Inductive wres := WOk | WErr | WErrCtx.   (* WErrCtx: conn.Write returned context.Canceled / DeadlineExceeded itself *)
+(* conn.Write returning the very values context.Canceled / context.DeadlineExceeded (which would make
+   Run return without its context being done, after which cleanup hands `[]error{nil}` to the queued
+   streams) is not modelled: net.TCPConn, net.UDPConn and tls.Conn return *net.OpError /
+   os.ErrDeadlineExceeded, never the context package's values. *)
+Inductive wres := WOk | WErr.
 
 Inductive phase :=
 | Connecting      (* about to call s.ConnFactory() *)
@@ -143,7 +147,6 @@ Definition step (legacy : bool) (maxs : nat) (s : state) (l : label) : option st
           match r with
           | WOk => Some s
           | WErr => Some (s <| errs := errs s ++ [EWrite] |> <| wfail := i :: wfail s |> <| ph := Connecting |>)
-          | WErrCtx => Some (s <| errs := errs s ++ [EWrite] |> <| wfail := i :: wfail s |> <| ph := Returning |>)
           end
       | _, _ => None
       end
@@ -197,7 +200,8 @@ Inductive sobs :=
 | OSubmit | OStreamCancel (i : nat) | OCtxCancel
 | OConn (ok : bool)
 | OWrite (i : nat) (r : wres)
-| OCb (i : nat) (es : list err).
+| OCb (i : nat) (es : list err)
+| ODone.                      (* Run returned (cleanup finished) *)
 
 (* the observation a step produces, computed from the state it is taken in *)
 Definition emits (s : state) (l : label) : option sobs :=
@@ -212,5 +216,9 @@ Definition emits (s : state) (l : label) : option sobs :=
   | SeeStreamCancel => match cur s with Some i => Some (OCb i (errs s ++ [EStreamCtx])) | None => None end
   | Deferred => match cur s with Some i => Some (OCb i (errs s)) | None => None end
   | DrainOne => match queue s with i :: _ => Some (OCb i [ERunCtx]) | [] => None end
-  | TimerFires | StreamIn | SeeCtxDone | CloseSink | DrainEnd => None
+  | DrainEnd => Some ODone
+  | TimerFires | StreamIn | SeeCtxDone | CloseSink => None
   end.
+
+(* a stream is pending while the sender holds it or it still sits in s.Sink *)
+Definition pending (i : nat) (s : state) : Prop := cur s = Some i \/ In i (queue s).
